@@ -1642,6 +1642,51 @@ def opassign_value_catalogue():
 
 # ----------------------------------------------------------------------------- containers built from places
 
+# ----------------------------------------------------------------------------- nested containers, constant indexes
+# (third session, area round a12-4): containers whose ELEMENTS are maps / lists, reached through chains of constant
+# and variable indexes.  Each script is a list of (statement, printed expression) steps executed by the real binary and
+# by the same statements over Python lists / dicts (aliasing included); printed values are compared line by line.
+
+def nested_catalogue():
+    cases = []
+
+    def add(cid, decls, steps):
+        """decls: source lines; steps: [(statement or None, expression to print, expected text)]."""
+        body, exp, ops = list(decls), [], []
+        for n, (stmt, expr, text) in enumerate(steps):
+            op = "nested.%s" % ("read" if stmt is None else "write")
+            ops.append(op)
+            if stmt:
+                body.append(stmt)
+            body.append("print %s" % expr)
+            exp.append({"step": n, "op": op, "kind": "result" if stmt is None else "state", "mode": "exact", "text": text, "var": None})
+        cases.append({"id": "nested:" + cid, "kind": "catalogue", "source": "\n".join(body) + "\n", "expected": exp, "ops": ops,
+                      "fail_step": None, "notes": ["alias", "nested_store"], "type": "nested"})
+
+    for ktype, k1, k3, k7, knew in (("int", "1", "3", "7", "9"), ("str", '"a"', '"c"', '"g"', '"n"')):
+        decl = ["m1 = map[%s, int] {\n %s: 10,\n %s: 30\n}" % (ktype, k1, k3), "m2 = map[%s, int] {\n %s: 70\n}" % (ktype, k7),
+                "dicts: [map[%s, int]...] = [m1, m2]" % ktype, "zero = 0", "one = 1", "kk = %s" % k7]
+        add("list_of_%s_maps" % ktype, decl, [
+            (None, "dicts[one][kk]", "70"), (None, "dicts[0][%s]" % k1, "10"), (None, "dicts[1][%s]" % k7, "70"),
+            (None, "dicts[zero][%s]" % k3, "30"), (None, "dicts[0][%s]" % k7, "nil"),
+            ("dicts[0][%s] = 5" % knew, "m1[%s]" % knew, "5"), ("dicts[0][%s] += 1" % k1, "m1[%s]" % k1, "11"),
+            ("dicts[one][%s] = 2" % knew, "m2.len()", "2"), (None, "(dicts[0]).len()", "3"),
+            ("m1[%s] = 31" % k3, "dicts[0][%s]" % k3, "31"), (None, "dicts.len()", "2")])
+    add("list_of_lists", ["l1: [int...] = [5, 6]", "l2: [int...] = [7]", "ll: [[int...]...] = [l1, l2]", "zero = 0", "one = 1"], [
+        (None, "ll[0][1]", "6"), (None, "ll[1][0]", "7"), (None, "ll[zero][one]", "6"), (None, "ll[one][0]", "7"),
+        ("ll[0][1] = 9", "l1", "[5, 9]"), ("ll[0][0] += 1", "l1[0]", "6"), ("ll[one][zero] *= 2", "l2", "[14]"),
+        ("l2.push(8)", "ll[1][1]", "8"), (None, "(ll[1]).len()", "2"), (None, "ll", "[[6, 9], [14, 8]]")])
+    add("map_of_lists", ["l1: [int...] = [5, 6]", "mm = map[int, [int...]] {\n 2: l1\n}", "two = 2"], [
+        (None, "(get mm[2])[1]", "6"), (None, "(get mm[two])[0]", "5"), ("l1.push(7)", "(get mm[2]).len()", "3"),
+        ("q = get mm[2]", "q[2]", "7"), ("q[0] = 1", "l1", "[1, 6, 7]")])
+    add("list_of_lists_of_lists", ["a1: [int...] = [1, 2]", "b1: [[int...]...] = [a1]", "c1: [[[int...]...]...] = [b1]", "zero = 0"], [
+        (None, "c1[0][0][1]", "2"), (None, "c1[zero][0][zero]", "1"), ("c1[0][0][1] = 5", "a1", "[1, 5]"),
+        ("c1[0][zero][0] += 3", "a1[0]", "4"), (None, "c1", "[[[4, 5]]]")])
+    add("object_field_list_of_maps", ["class Bx {\n ms: [map[int, int]...]\n constructor(self) {\n  self.ms = [map[int, int] {\n   1: 2\n  }]\n }\n}", "bx = Bx()", "one = 1"], [
+        (None, "(bx.ms)[0][1]", "2"), (None, "(bx.ms)[0][one]", "2"), (None, "(bx.ms)[0][5]", "nil"), (None, "bx.ms.len()", "1")])
+    return cases
+
+
 def places_catalogue():
     """Every way of putting a value into a list or map x the value written as a place expression (index
     expression by literal / by variable, map lookup, object field read, nested-list element, element of a list
@@ -1934,7 +1979,7 @@ def nontrivial(res):
 def run(ctx):
     out = core.Outcome()
     avoid = {name: any(s in ctx.known for s in sigs) for name, (sigs, _) in AVOIDANCE.items()}
-    cat = catalogue() + places_catalogue() + callback_catalogue() + opassign_value_catalogue()
+    cat = catalogue() + places_catalogue() + callback_catalogue() + opassign_value_catalogue() + nested_catalogue()
     # adaptive rule: the pinned case of a defect is run first; while it deviates on this tree (it is then reported
     # under its own catalogue signature) the random generator stays away from that construct
     probe = [c for c in cat if c["id"] == "places:map_assignment_key:lookup_in_same_map"][0]
